@@ -20,6 +20,11 @@ open Cosi Cosi.Queue Cosi.Queue.PQ
 
 def Sorted (pq : PQ) : Prop := pq.Pairwise (fun a b => a.due ≤ b.due)
 
+/-- **Obligation (latest value).** A Put for a key that is being processed parks the value given — the latest
+    one replaces whatever was parked (`Gen.Queue.onHoldPutKeepsLatest`, regenerated from queue.go's put arm). -/
+@[simp] theorem parkValue_latest (k v : Nat) (ohq : List (Nat × Nat)) : parkValue k v ohq = amSet k v ohq := by
+  simp [parkValue, Gen.Queue.onHoldPutKeepsLatest]
+
 theorem mem_insert (e x : Entry) (pq : PQ) : x ∈ ins e pq ↔ x = e ∨ x ∈ pq := by
   induction pq with
   | nil => simp [ins]
@@ -724,7 +729,7 @@ theorem inv_init : QInv init := by
 theorem inv_put (s : Q) (k v : Nat) (h : QInv s) : QInv (doPut s k v) := by
   unfold doPut
   by_cases hh : k ∈ s.onHold
-  · simp only [hh, if_true]
+  · simp only [hh, if_true, parkValue_latest]
     refine ⟨h.sorted, h.nodupKeys, h.disjoint, ?_, h.nodupHold, amNodup_amSet _ _ _ h.nodupParked, ?_⟩
     · intro k' hk'
       rcases (amKeys_amSet k v k' s.ohq).1 hk' with rfl | h1
@@ -1089,7 +1094,7 @@ theorem pending_put_self (s : Q) (k v : Nat) (h : QInv s) : pending (doPut s k v
 theorem pending_put_other (s : Q) (k k' v : Nat) (hne : k ≠ k') : pending (doPut s k' v) k = pending s k := by
   unfold doPut
   by_cases hh : k' ∈ s.onHold
-  · simp only [hh, if_true, pending, amLookup_amSet_other _ _ _ _ hne]
+  · simp only [hh, if_true, pending, parkValue_latest, amLookup_amSet_other _ _ _ _ hne]
   · simp only [hh, if_false, pending, push_lookup_other _ _ _ _ _ _ hne]
 
 theorem pending_released_other (s : Q) (k k' v : Nat) (a : Option Nat) (hne : k ≠ k') :
